@@ -85,11 +85,12 @@ def build(config, quiet=True):
     try:
         libname = "libsafec.so" if cfg["kind"] == "shared" else "libsafec.a"
         if os.path.exists(os.path.join(out, "OK")):
+            os.utime(out, None)   # LRU: builds in use stay recent
             return out
-        # remove stale builds of this config (disk): keep the 3 most recent
+        # remove stale builds of this config (disk): keep the 5 most recently used
         old = sorted((os.path.join(base, d) for d in os.listdir(base) if os.path.isdir(os.path.join(base, d))),
                      key=lambda p: os.path.getmtime(p), reverse=True)
-        for p in old[3:]:
+        for p in old[5:]:
             shutil.rmtree(p, ignore_errors=True)
         if os.path.exists(out):
             shutil.rmtree(out, ignore_errors=True)   # partial build (a previous compile error)
